@@ -229,3 +229,11 @@ pub proof fn theorem_lookup_iff_listed(packs: Seq<IndexPack>, t: BlobType, ix: S
         assert(listed(packs, t, n, ix[i].id, f.packs[ix[i].pack_idx as int].0, ix[i].location));
     }
 }
+
+// ---- PackIndexes (the iterator turning the index back into packs): the fields next()'s second half reads ----
+pub struct PackIndexesV { pub c: Index, pub tpe: BlobType }
+// IndexPack { id, ..Default::default() }: ASSUMED to be the pack with this id and nothing else
+#[verifier::external_body]
+pub fn vindexpack_with_id(id: PackId) -> (r: IndexPack)
+    ensures r.id == id, r.blobs@.len() == 0, r.size is None,
+{ unimplemented!() }
